@@ -3,6 +3,7 @@
 set -e
 cd "$(dirname "$0")"
 mkdir -p build bin evidence replays
+python3 tools/assemble.py
 cd coq
 coq_makefile -f _CoqProject -o Makefile
 timeout 3000 make -k -j16 || true
